@@ -27,8 +27,9 @@ def main():
                                 ignore=shutil.ignore_patterns('*.o', '*.lo', '*.la', '.libs', '.deps', '*.a', '*.so*'))
             p = subprocess.run(['patch', '-p1', '-s', '-i', pf], cwd=scratch, stdout=subprocess.PIPE, stderr=subprocess.STDOUT)
             if p.returncode != 0:
-                rows.append((n, prop, 'patch-failed', '', p.stdout.decode()[-200:]))
+                rows.append((n, prop, 'patch-failed', '', p.stdout.decode()[-200:].replace('\n', ' ')))
                 missed += 1
+                print('%-8s property=%s exit=%s caught-by=%s native=%s' % rows[-1], flush=True)
                 continue
             env = dict(os.environ, VERIF_REPO=scratch)
             r = subprocess.run([os.path.join(V, 'check'), prop, '--no-evidence'], cwd=V, env=env, stdout=subprocess.PIPE, stderr=subprocess.STDOUT)
